@@ -39,8 +39,22 @@ def grouped_items(items):
     return [it for k in order for it in by[k]]
 
 
+# ordered children, as far as the model goes (label q)
+ORDERED_DIRECTED = [
+    # inserts before an entry / at the end / not into the index, a reorder, hostile copies of the same from the neighbour, removal, departure
+    "a:H;a:H;p:1:0:/*/*/*&/*/*/*/*;s:0:0:x=1;io:0:x:-=1&-=2&I0=3;ro:0:x/I1=I0;io:0:/H/1:-=7;io:0:/*/*:-=7;ro:0:/H/1/*=I0;s:1:0:y=1;io:1:y:-=1;ro:0:../1/y/*=&/*/*/y/I0=;r:0:0:x/I0;io:0:x:!Rmv=4&I1=5;ro:0:x/*=!Rmv;d:0",
+    # the name counter skips taken names, starts again on a re-created node, and goes with a departed session
+    "a:H;a:G;s:0:0:x=1&x/I0=5&x/I2=6;io:0:x:-=1&-=2&-=3;r:0:0:x;s:0:0:x=2;io:0:x:-=1;d:0;a:H;s:2:0:x=1;io:2:x:-=9",
+    # wildcard keys, several parents, fields in order of first appearance, batches, reorder of a child that is not in the index
+    "a:H;a:H;s:0:0:x=1&y=2&x/z=3;io:0:*:a=1&b=2&a=3;ro:0:*/I1=I0&x/z=I0&*/*=;b:0:io~x~I0=7+ro~x/I0=+s~0~x/q=1+io~*/*~-=1;b:1:io~/H/0/x~-=1+ro~/H/0/x/*=I0+r~0~/H/0/x/I0;d:1;io:0:x/z:-=1;ro:0:x/z/I0=x",
+    # the session node itself cannot be a parent (the traversal starts below it); depth limits do not matter here
+    "a:H;a:H;io:0::-=1;io:0:/:-=1;io:0:*:-=1;s:0:0:x=1;io:0:*:-=1;ro:0:x=I0;ro:0:*=;d:0",
+]
+
+
 class Gen:
-    def __init__(self, rng, hostile=0.35, priv_hosts=True, quiet=False, filters=True, ordered=False):
+    def __init__(self, rng, hostile=0.35, priv_hosts=True, quiet=False, filters=True, ordered=False, single_key=False):
+        self.single_key = single_key
         self.rng = rng
         self.ordered = ordered
         self.hostile = hostile
@@ -199,18 +213,18 @@ class Gen:
         known = self.paths[k]
         if rng.random() < 0.6:
             pats = uniq([rng.choice([rng.choice(known) if known else "x", self.relpat(), self.abs_target(k), "/*/*", "../*", "*"])
-                         for _ in range(rng.choice([1, 1, 2]))])
-            items = ["%s=%d" % (rng.choice(["-", "I0", "I1", "I2", "x", "I0"]), rng.randrange(10)) for _ in range(rng.choice([1, 2, 3]))]
+                         for _ in range(1 if self.single_key else rng.choice([1, 1, 2]))])
+            items = ["%s=%d" % (rng.choice(["-", "I0", "I1", "I2", "x", "I0", "!Rmv"]), rng.randrange(10)) for _ in range(rng.choice([1, 2, 3]))]
             return ("io:%d:%s:%s" % (k, "&".join(pats), "&".join(items))) if sep == ":" else ("io~%s~%s" % ("&".join(pats), "&".join(items)))
         items = ["%s=%s" % (rng.choice([(rng.choice(known) if known else "x") + "/*", self.relpat(), self.abs_target(k), "*/I0", "*/*"]),
-                            rng.choice(["I0", "I1", "", "x", "I2"])) for _ in range(rng.choice([1, 1, 2]))]
+                            rng.choice(["I0", "I1", "", "x", "I2", "!Rmv"])) for _ in range(rng.choice([1, 1, 2]))]
         items = uniq(items)
         return ("ro:%d:%s" % (k, "&".join(items))) if sep == ":" else ("ro~%s" % "&".join(items))
 
     def simple_cmd(self, k, sep=":"):
         rng = self.rng
         r = rng.random()
-        if self.ordered and r < 0.25:
+        if self.ordered and r < (0.4 if self.single_key else 0.25):
             return self.ordered_cmd(k, sep)
         if r < self.hostile:
             h = rng.random()
@@ -367,8 +381,10 @@ class CHECK(vlib.Check):
                 "BounceMessage, the PR_NAME_PRIVILEGE_BITS branches of SETPARAMETERS/RemoveParameter, client-to-client routing with the "
                 "PR_NAME_SESSION overwrite (PassMessageCallback, broadcast), SetDataNode's leading-'/' test, AdjustStringPrefix(NULL); "
                 "privilege assignment at attach; ReflectServer::EndSession/ClearLameDucks.  Not modelled: ban patterns, default Message "
-                "route and routing-flag parameters, reply contents of GETPARAMETERS/GETDATATREES, JETTISON* (no-op: exact when the sender's outgoing queue is empty, so never generated inside a batch or cut stream), ordered indices "
-                "(INSERTORDEREDDATA/REORDERDATA: harness frame oracle only), sockets and the event loop.")
+                "route and routing-flag parameters, reply contents of GETPARAMETERS/GETDATATREES, JETTISON* (no-op: exact when the sender's outgoing queue is empty, so never generated inside a batch or cut stream), INSERTORDEREDDATA with several keys, "
+                "the INDEXUPDATED notifications, the node-count limit, sockets and the event loop.  Ordered children (Refl/IsoOrd.v): "
+                "INSERTORDEREDDATA with one key (name generation from the per-node counter, insert-before / append / PR_NAME_REMOVE_FROM_INDEX), "
+                "REORDERDATA, index entries and counters going with removed nodes.")
     premises = ["MatchLaws (Refl/BaseProofs.v; C15): clause text equality is decidable, '*' matches every name, a clause reported unique / "
                 "list-of-unique-values matches exactly its keys -- premise of detach_clean and as_if_never (frame_own_subtree needs nothing)",
                 "fx_guard fx = true: the traversal's full-path re-check is skipped only for a single pattern (F12 repair, /repo 63c5c82); the "
@@ -389,7 +405,7 @@ class CHECK(vlib.Check):
             "after every (all) / around every Message boundary (some) byte of a client's stream; after EVERY op messages, tree with subscriber "
             "tables, subscriptions, limits, privilege bits and liveness are compared with the extracted model; frame / detach-trace / "
             "as-if-never oracles on the implementation, the same statements on the model's states; one more stream (label i) adds "
-            "INSERTORDEREDDATA / REORDERDATA, which the model does not cover, and is judged by the oracles and sanitizers alone.  Non-trivial = at least two sessions, "
+            "INSERTORDEREDDATA / REORDERDATA in full generality (several keys), judged by the oracles and sanitizers alone; stream q restricts them to what Refl/IsoOrd.v models (one key) and compares tree, ordered indices and sessions with the extracted model after every op.  Non-trivial = at least two sessions, "
             "a subscription or data of another session in place, and then a hostile command, a departure or a cut.")
 
     def gen_cases(self, rng, tier):
@@ -417,7 +433,19 @@ class CHECK(vlib.Check):
         # frame / detach-trace / as-if-never oracles (which compare indices too) and the sanitizers
         for c in self.gen_ordered(rng, tier):
             out.append(("ordered-impl-only", c))
+        # the same commands as far as Refl/IsoOrd.v models them (one key per INSERTORDEREDDATA): tree with the ordered index of every
+        # node and sessions compared with the extracted model after every op
+        for c in self.gen_ordered_model(rng, tier):
+            out.append(("ordered-model", c))
         return out
+
+    def gen_ordered_model(self, rng, tier):
+        n = 60 if tier == "quick" else 400
+        out = list(ORDERED_DIRECTED)
+        for i in range(n):
+            g = Gen(rng, hostile=0.3, priv_hosts=False, quiet=False, filters=(i % 3 == 0), ordered=True, single_key=True)
+            out.append(g.case(rng.choice([6, 10, 14, 20]), rng.choice([2, 3])))
+        return ["q|" + c for c in out]
 
     def gen_ordered(self, rng, tier):
         n = 60 if tier == "quick" else 300
